@@ -23,6 +23,9 @@ func main() {
 	case "C04":
 		runC04(ev.Parse("model_checking"))
 	case "C12":
+		if os.Getenv("VERIF_PHASE") == "conc" {
+			runC12Conc(ev.Parse("model_checking"))
+		}
 		runC12(ev.Parse("model_checking"))
 	case "C13":
 		runC13(ev.Parse("model_checking"))
